@@ -76,10 +76,21 @@ package trace
 //@   prop C09
 //@   ensures r.sc == sc && r.tracer == tr
 
+// newRecordingSpan (verified): context, parent, name and tracer are the arguments; an explicit start time is used as given, else
+// the clock; every link of the config goes through AddLink, the sampler's attributes are set BEFORE the caller's (so the caller's
+// win on equal keys), both through SetAttributes (limits apply)
 //@ func (tr *tracer) newRecordingSpan(psc trace.SpanContext, sc trace.SpanContext, name string, sr SamplingResult, config *trace.SpanConfig) (r *recordingSpan)
-//@   prop -
-//@   trusted "constructor with runtime/trace, time and option plumbing; only its field mapping is assumed here"
+//@   prop C09 C04
+//@   overflow assumed
+//@   unchecked frame,no-panic option plumbing of module trace (config accessors), the clock and the queues' constructors are outside the contracts; AddLink/SetAttributes write the new span
+//@   requires tr != nil && tr.provider != nil && config != nil
+//@   modifies
 //@   ensures r != nil && fresh(r) && r.spanContext == sc && r.parent == psc && r.name == name
+//@   assert@call recordingSpan.AddLink#* : $arg0 == s && fresh(s) && s.spanContext == sc && s.parent == psc && s.name == name && s.tracer == tr
+//@   assert@call recordingSpan.SetAttributes#1 : $arg0 == s && $arg1 === sr.Attributes && s.spanContext == sc && s.parent == psc && s.name == name && s.tracer == tr && s.startTime === startTime
+//@   assert@call recordingSpan.SetAttributes#2 : $arg0 == s
+//@   assert@return#* : $ret0 == s
+//@   loop#1 invariant fresh(s) && s != nil
 
 //@ func (tr *tracer) newSpan(ctx context.Context, name string, config *trace.SpanConfig) (r trace.Span)
 //@   prop C09
@@ -227,11 +238,31 @@ package trace
 //@   trusted "start.Add(time.Since(start)): a wall-clock reading, never the zero time"
 //@   ensures !r.IsZero()
 
+// snapshot: what is handed to processors and exporters is a field-by-field copy of the span taken in ONE critical section: every
+// scalar field equals the span's, the dropped counts are the span's, events and links are COPIES of the queues (same length and
+// elements, different backing array), the attribute list is the span's de-duplicated list
 //@ func (s *recordingSpan) snapshot() (r ReadOnlySpan)
-//@   prop -
-//@   trusted "field-by-field copy under the span lock (takes s.mu itself)"
+//@   prop C04 C10
 //@   acquires s.mu
-//@   ensures r != nil
+//@   overflow assumed
+//@   unchecked frame de-duplication rewrites the span's attribute list in place (its own contract); fresh copies are built
+//@   requires s != nil && s.tracer != nil && s.tracer.provider != nil
+//@   ensures r != nil && typeis(r, "*snapshot")
+//@   ensures cast(r, "*snapshot").name == s.name && cast(r, "*snapshot").spanKind == s.spanKind && cast(r, "*snapshot").childSpanCount == s.childSpanCount && cast(r, "*snapshot").status == s.status
+//@   ensures cast(r, "*snapshot").startTime === s.startTime && cast(r, "*snapshot").endTime === s.endTime && cast(r, "*snapshot").spanContext == s.spanContext && cast(r, "*snapshot").parent == s.parent
+//@   ensures cast(r, "*snapshot").resource == s.tracer.provider.resource && cast(r, "*snapshot").instrumentationScope == s.tracer.instrumentationScope
+//@   ensures cast(r, "*snapshot").droppedAttributeCount == s.droppedAttributes
+//@   ensures len(s.events.queue) > 0 ==> cast(r, "*snapshot").droppedEventCount == s.events.droppedCount && len(cast(r, "*snapshot").events) == len(s.events.queue) && !samearray(cast(r, "*snapshot").events, s.events.queue) && (forall i in 0 .. len(s.events.queue) : cast(r, "*snapshot").events[i] === s.events.queue[i])
+//@   ensures len(s.links.queue) > 0 ==> cast(r, "*snapshot").droppedLinkCount == s.links.droppedCount && len(cast(r, "*snapshot").links) == len(s.links.queue) && !samearray(cast(r, "*snapshot").links, s.links.queue) && (forall i in 0 .. len(s.links.queue) : cast(r, "*snapshot").links[i] === s.links.queue[i])
+//@   ensures len(s.events.queue) == 0 ==> len(cast(r, "*snapshot").events) == 0 && cast(r, "*snapshot").droppedEventCount == 0
+//@   ensures len(s.links.queue) == 0 ==> len(cast(r, "*snapshot").links) == 0 && cast(r, "*snapshot").droppedLinkCount == 0
+//@   ensures len(s.attributes) > 0 ==> cast(r, "*snapshot").attributes === s.attributes
+//@ func (s *recordingSpan) dedupeAttrs()
+//@   prop C04
+//@   holds s.mu
+//@   unchecked frame the attribute list is rewritten in place by dedupeAttrsFromRecord (own contract)
+//@   requires s != nil
+//@   modifies s.attributes, elemscap(s.attributes)
 
 //@ func (s *recordingSpan) End(options []trace.SpanEndOption)
 //@   prop C10
